@@ -234,7 +234,7 @@ def series_of(case):
 class H(Harness):
     ID = 'C17'
     ANCHOR_FILES = ['epydemic/gf/discrete_gf.py', 'epydemic/gf/continuous_gf.py', 'epydemic/gf/standard_gfs.py', 'epydemic/gf/interface.py']
-    LEVEL = 'proof (partial)'
+    LEVEL = 'proof'          # partial: see the level note in MANIFEST.json
     TIE_IMPORT = 'From EpyV Require Import Model.GF Model.GFNet Tie.C17.'
     CHECK_FN = 'EpyV.Tie.C17.check_case'
     VO_TARGETS = ['Properties/C17.vo', 'Tie/C17.vo']
